@@ -82,6 +82,9 @@ Proof.
   - rewrite IHb by lia. reflexivity.
 Qed.
 
+Ltac open_app := match goal with |- (let '(l', i) := app_node ?p ?l ?n in _) =>
+  change (app_node p l n) with (fst (app_node p l n), size (l :: p)); cbv beta iota end.
+
 (* ------------------------------------------------------------------ compile_body *)
 Definition cb_post (p : chain) (l : layer) (b : body) (l' : layer) (i : nat) : Prop :=
   Inv p l' /\
@@ -120,7 +123,7 @@ Proof.
     destruct Hah as (I1 & Hext1 & Hfrm1 & Hdefs1 & _); [intros k a E; discriminate|].
     pose proof (app_post p l1 (NCall (FU f) args dn) I1 Logic.I (fun _ _ _ H => ltac:(discriminate H)) eq_refl) as Hap.
     simpl in Hap. destruct Hap as (I2 & Hext2 & Hfrm2 & Hdefs2 & Hfr2 & Hg2 & Hsz2).
-    unfold app_node at 1. simpl fst in *. unfold cb_post; splits.
+    open_app. unfold cb_post; splits.
     + exact I2.
     + intros N. eapply extN_trans; [apply Hext1|apply Hext2].
     + eapply frm_trans; eauto.
@@ -143,7 +146,7 @@ Proof.
     { simpl. split; apply fr_app_old; try apply I2; auto. }
     pose proof (app_post p l2 (NConj i1 i2) I2 Hok (fun _ _ _ H => ltac:(discriminate H)) eq_refl) as Hap.
     simpl in Hap. destruct Hap as (I3 & Hext3 & Hfrm3 & Hdefs3 & Hfr3 & Hg3 & Hsz3).
-    unfold cb_post; splits.
+    open_app. unfold cb_post; splits.
     + exact I3.
     + intros N. eapply extN_trans; [apply Hext1|]. eapply extN_trans; [apply Hext2|apply Hext3].
     + eapply frm_trans; [exact Hfrm1|]. eapply frm_trans; eauto.
@@ -166,7 +169,7 @@ Proof.
     { simpl. split; apply fr_app_old; try apply I2; auto. }
     pose proof (app_post p l2 (NDisj i1 i2) I2 Hok (fun _ _ _ H => ltac:(discriminate H)) eq_refl) as Hap.
     simpl in Hap. destruct Hap as (I3 & Hext3 & Hfrm3 & Hdefs3 & Hfr3 & Hg3 & Hsz3).
-    unfold cb_post; splits.
+    open_app. unfold cb_post; splits.
     + exact I3.
     + intros N. eapply extN_trans; [apply Hext1|]. eapply extN_trans; [apply Hext2|apply Hext3].
     + eapply frm_trans; [exact Hfrm1|]. eapply frm_trans; eauto.
@@ -187,7 +190,7 @@ Proof.
     { simpl. apply fr_app_old; try apply I1; auto. }
     pose proof (app_post p l1 (NNeg i1) I1 Hok (fun _ _ _ H => ltac:(discriminate H)) eq_refl) as Hap.
     simpl in Hap. destruct Hap as (I3 & Hext3 & Hfrm3 & Hdefs3 & Hfr3 & Hg3 & Hsz3).
-    unfold cb_post; splits.
+    open_app. unfold cb_post; splits.
     + exact I3.
     + intros N. eapply extN_trans; [apply Hext1|apply Hext3].
     + eapply frm_trans; eauto.
@@ -198,4 +201,130 @@ Proof.
       rewrite (render_stable (l1 :: p) _ (I_cl _ _ I1)); [reflexivity| |exact Hfr1].
       apply extN_extA. apply Hext3.
     + simpl in *. lia.
+Qed.
+
+(* ------------------------------------------------------------------ _add_clause_node *)
+Definition acn_post (p : chain) (l : layer) (s : sig) (nd : node) (l2 : layer) : Prop :=
+  let c := size (l :: p) in
+  Inv p l2 /\ extA (l :: p) (l2 :: p) /\ frm (l :: p) (l2 :: p) /\
+  defs (l2 :: p) s = defs (l :: p) s ++ [c] /\
+  (forall s', s' <> s -> defs (l2 :: p) s' = defs (l :: p) s') /\
+  get_node (l2 :: p) c = nd /\ fr (l2 :: p) c /\
+  S (size (l :: p)) <= size (l2 :: p) /\
+  (get_head (l :: p) s = None -> size (l2 :: p) = S (S (size (l :: p))) /\ get_head (l2 :: p) s = Some (S (size (l :: p)))).
+
+Lemma app_then_define : forall p l s nd,
+  Inv p l -> ok_node (fst (app_node p l nd) :: p) nd -> (forall f a ch, nd <> NDefine f a ch) -> frozen nd = true ->
+  (forall k a, s = (FBody k, a) -> k <= size (l :: p)) ->
+  (is_user s \/ get_head (l :: p) s = None) ->
+  acn_post p l s nd (add_define p (fst (app_node p l nd)) s (size (l :: p))).
+Proof.
+  intros p l s nd I Hok Hnd Hfz Hfb Hcase.
+  pose proof (app_post p l nd I Hok Hnd Hfz) as Hap. cbv zeta in Hap.
+  destruct Hap as (I1 & Hext1 & Hfrm1 & Hdefs1 & Hfr1 & Hg1 & Hsz1).
+  set (l1 := fst (app_node p l nd)) in *.
+  assert (Hfb1 : forall k a, s = (FBody k, a) -> k <= size (l1 :: p)).
+  { intros k a E. specialize (Hfb k a E). rewrite Hsz1. lia. }
+  pose proof (add_define_spec (size (l1 :: p)) p l1 s (size (l :: p)) I1 Hfb1 (le_n _) Hfr1) as Had.
+  destruct Had as (I2 & Hext2 & Hfrm2 & Hd2 & Hdo2 & Hsz2 & Hnone2 & Hback2).
+  assert (Hcase1 : is_user s \/ get_head (l1 :: p) s = None).
+  { destruct Hcase; [left; assumption|right]. unfold l1. rewrite get_head_app. assumption. }
+  specialize (Hext2 Hcase1).
+  unfold acn_post; splits.
+  - exact I2.
+  - apply extN_extA. eapply extN_trans; [apply Hext1|]. eapply extN_weaken; [|exact Hext2]. rewrite Hsz1. lia.
+  - eapply frm_trans; eauto.
+  - rewrite Hd2, Hdefs1. reflexivity.
+  - intros s' Hne. rewrite (Hdo2 s' Hne), Hdefs1. reflexivity.
+  - destruct Hext2 as [_ Hx]. rewrite Hx; [exact Hg1| rewrite Hsz1; lia | exact Hfr1].
+  - apply Hfrm2. exact Hfr1.
+  - rewrite Hsz1 in Hsz2. exact Hsz2.
+  - intros Hnn. assert (Hnn1 : get_head (l1 :: p) s = None) by (unfold l1; rewrite get_head_app; exact Hnn).
+    destruct (Hnone2 Hnn1) as [Ha Hb]. rewrite Hsz1 in Ha, Hb. split; assumption.
+Qed.
+
+(* ------------------------------------------------------------------ statements without annotated disjunctions *)
+Definition specf (fuel : nat) (st : stmt) (s : sig) : list rclause :=
+  match st with
+  | SFact f a pr => if sig_eqb s (FU f, length a) then [RFact a pr] else []
+  | SClause f a b vc => if sig_eqb s (FU f, length a) then [RClause a None (rspec fuel b) vc false] else []
+  | _ => []
+  end.
+
+Definition noad (st : stmt) : Prop := match st with SAD _ _ _ => False | _ => True end.
+
+Definition st_post (p : chain) (l : layer) (l' : layer) (contrib : nat -> sig -> list rclause) : Prop :=
+  Inv p l' /\ extA (l :: p) (l' :: p) /\
+  forall fuel s, abs fuel (l' :: p) s = abs fuel (l :: p) s ++ contrib fuel s.
+
+Lemma sig_eqb_sym : forall a b, sig_eqb a b = sig_eqb b a.
+Proof.
+  intros a b. destruct (sig_eqb a b) eqn:E.
+  - apply sig_eqb_eq in E. subst. symmetry. apply sig_eqb_refl.
+  - destruct (sig_eqb b a) eqn:E2; [|reflexivity]. apply sig_eqb_eq in E2. subst. rewrite sig_eqb_refl in E. discriminate.
+Qed.
+
+Lemma abs_after_define : forall fuel p l l2 s0 c rc,
+  Inv p l -> extA (l :: p) (l2 :: p) ->
+  defs (l2 :: p) s0 = defs (l :: p) s0 ++ [c] ->
+  (forall s', s' <> s0 -> defs (l2 :: p) s' = defs (l :: p) s') ->
+  render_clause fuel (l2 :: p) c = rc ->
+  forall s, abs fuel (l2 :: p) s = abs fuel (l :: p) s ++ (if sig_eqb s s0 then [rc] else []).
+Proof.
+  intros fuel p l l2 s0 c rc I Hx Hd Hdo Hrc s. rewrite (abs_defs fuel (l2 :: p)).
+  destruct (sig_eqb s s0) eqn:E.
+  - apply sig_eqb_eq in E. subst s. rewrite Hd, map_app. simpl. rewrite Hrc.
+    rewrite (abs_old_stable fuel p l (l2 :: p) s0 I Hx). reflexivity.
+  - rewrite Hdo by (intros ->; rewrite sig_eqb_refl in E; discriminate).
+    rewrite (abs_old_stable fuel p l (l2 :: p) s I Hx). rewrite app_nil_r. reflexivity.
+Qed.
+
+Lemma add_stmt_noad_spec : forall gm p l st, Inv p l -> noad st ->
+  st_post p l (add_stmt gm p l st) (fun fuel s => specf fuel st s).
+Proof.
+  intros gm p l st I Hna. destruct st as [f a pr|f a b vc|heads b vc|f ar]; simpl in Hna; [| | contradiction|].
+  - (* fact *)
+    simpl add_stmt.
+    change (app_node p l (NFact (FU f) a pr)) with (fst (app_node p l (NFact (FU f) a pr)), size (l :: p)). cbv beta iota.
+    pose proof (app_then_define p l (FU f, length a) (NFact (FU f) a pr) I Logic.I
+                  (fun _ _ _ H => ltac:(discriminate H)) eq_refl
+                  (fun k a0 H => ltac:(discriminate H)) (or_introl (ex_intro _ f eq_refl))) as H.
+    destruct H as (I2 & Hx & Hfrm & Hd & Hdo & Hg & Hfr & Hsz & _).
+    unfold st_post; splits; [exact I2|exact Hx|].
+    intros fuel s. simpl specf.
+    apply (abs_after_define fuel p l _ (FU f, length a) (size (l :: p)) (RFact a pr) I Hx Hd Hdo).
+    unfold render_clause. rewrite Hg. reflexivity.
+  - (* clause *)
+    simpl add_stmt. pose proof (compile_body_spec b p l I) as Hcb.
+    destruct (compile_body p l b) as [l1 bn].
+    destruct Hcb as (I1 & Hext1 & Hfrm1 & Hdefs1 & Hfr1 & Hr1 & Hsz1).
+    unfold add_clause_node.
+    change (app_node p l1 (NClause (FU f) a None bn vc None))
+      with (fst (app_node p l1 (NClause (FU f) a None bn vc None)), size (l1 :: p)). cbv beta iota.
+    assert (Hok : ok_node (fst (app_node p l1 (NClause (FU f) a None bn vc None)) :: p) (NClause (FU f) a None bn vc None)).
+    { simpl. apply fr_app_old; [apply I1|exact Hfr1]. }
+    pose proof (app_then_define p l1 (FU f, length a) (NClause (FU f) a None bn vc None) I1 Hok
+                  (fun _ _ _ H => ltac:(discriminate H)) eq_refl
+                  (fun k a0 H => ltac:(discriminate H)) (or_introl (ex_intro _ f eq_refl))) as H.
+    destruct H as (I2 & Hx & Hfrm & Hd & Hdo & Hg & Hfr & Hsz & _).
+    assert (Hx01 : extA (l :: p) (l1 :: p)) by (apply extN_extA; apply Hext1).
+    assert (Hx02 : extA (l :: p) (add_define p (fst (app_node p l1 (NClause (FU f) a None bn vc None))) (FU f, length a) (size (l1 :: p)) :: p)).
+    { intros j Hj. rewrite Hx; [apply Hx01; exact Hj|apply Hfrm1; exact Hj]. }
+    unfold st_post; splits; [exact I2|exact Hx02|].
+    intros fuel s. simpl specf.
+    rewrite (abs_after_define fuel p l1 _ (FU f, length a) (size (l1 :: p))
+               (RClause a None (rspec fuel b) vc false) I1 Hx Hd Hdo).
+    + f_equal. rewrite !abs_defs. rewrite Hdefs1. symmetry.
+      rewrite <- abs_defs. symmetry. rewrite <- (abs_old_stable fuel p l (l1 :: p) s I Hx01). reflexivity.
+    + unfold render_clause. rewrite Hg. f_equal. rewrite <- Hr1.
+      apply render_stable; [apply I1|exact Hx|exact Hfr1].
+  - (* declaration *)
+    simpl add_stmt.
+    pose proof (add_head_spec p l (FU f, ar) false I (fun k a0 H => ltac:(discriminate H))) as Hah.
+    destruct (add_head p l (FU f, ar) false) as [l1 dn]. simpl fst.
+    destruct Hah as (I1 & Hext1 & Hfrm1 & Hdefs1 & _).
+    assert (Hx01 : extA (l :: p) (l1 :: p)) by (apply extN_extA; apply Hext1).
+    unfold st_post; splits; [exact I1|exact Hx01|].
+    intros fuel s. simpl. rewrite app_nil_r. rewrite (abs_defs fuel (l1 :: p)), Hdefs1.
+    apply (abs_old_stable fuel p l (l1 :: p) s I Hx01).
 Qed.
